@@ -20,6 +20,7 @@ mod errmap;
 mod gc;
 mod ports;
 mod rside;
+mod strings;
 
 use errcheck::Aspect;
 use ports::*;
@@ -43,6 +44,8 @@ enum Cfg {
     Event { mix: Mix, svc: SvcType, max_id: usize, lifecycle_events: bool },
     ReqRes { mix: Mix, svc: SvcType, size: usize, align: usize, slice: bool, max_active: usize, loans: usize, faf: bool, stage: u8 },
     ErrorEnum { name: String },
+    /// names and paths validated as semantic strings (config prefix/root path, service name, node name)
+    Strings,
 }
 
 #[derive(Clone, Debug, Serialize, Deserialize, PartialEq, Eq)]
@@ -79,6 +82,8 @@ enum Op {
     ToggleServer,
     // error mapping
     CheckAllVariants(Aspect),
+    // names and paths
+    Str(strings::StrApi, strings::StrKind),
 }
 
 enum World {
@@ -91,6 +96,7 @@ struct Sys {
     cfg: Cfg,
     /// (reference world, test world); None for the error-enum family
     worlds: Option<(World, World)>,
+    strings: Option<strings::Strings>,
     names: (String, String),
     prefixes: (String, String),
     step: u8,
@@ -207,7 +213,7 @@ fn build_world(cfg: &Cfg, c_a: bool, c_b: bool, prefix: &str, name: &str) -> Res
             }
             Ok(World::Rr { a, b, c })
         }
-        Cfg::ErrorEnum { .. } => unreachable!(),
+        Cfg::ErrorEnum { .. } | Cfg::Strings => unreachable!(),
     }
 }
 
@@ -454,6 +460,7 @@ fn c_call(op: &Op, slice: bool) -> &'static str {
         Op::ToggleClient => "iox2_client_drop/iox2_port_factory_client_builder_create",
         Op::ToggleServer => "iox2_server_drop/iox2_port_factory_server_builder_create",
         Op::CheckAllVariants(_) => "into_c_int",
+        Op::Str(..) => "semantic string",
     }
 }
 
@@ -526,7 +533,7 @@ impl Harness for H {
     fn new_sys(&self, cfg: &Cfg) -> Result<Sys, Fail> {
         rside::silence_log();
         cside::silence_log();
-        if !matches!(cfg, Cfg::ErrorEnum { .. }) && DIRTY.swap(true, Ordering::Relaxed) {
+        if !matches!(cfg, Cfg::ErrorEnum { .. } | Cfg::Strings) && DIRTY.swap(true, Ordering::Relaxed) {
             // the previous execution of this process was abandoned: remove what it left behind
             gc::collect(Some(std::process::id()));
         }
@@ -534,10 +541,14 @@ impl Harness for H {
         let pid = std::process::id();
         let prefixes = (format!("hffi_{pid}_r_"), format!("hffi_{pid}_t_"));
         let names = (format!("hffi/{pid}/{k}/ref"), format!("hffi/{pid}/{k}/test"));
-        let mut s = Sys { cfg: cfg.clone(), worlds: None, names, prefixes, step: 0, digest: 0 };
+        let mut s = Sys { cfg: cfg.clone(), worlds: None, strings: None, names, prefixes, step: 0, digest: 0 };
         let mix = match cfg {
             Cfg::PubSub { mix, .. } | Cfg::Event { mix, .. } | Cfg::ReqRes { mix, .. } => *mix,
             Cfg::ErrorEnum { .. } => return Ok(s),
+            Cfg::Strings => {
+                s.strings = Some(strings::Strings::new());
+                return Ok(s);
+            }
         };
         let (c_a, c_b) = match mix {
             Mix::CC => (true, true),
@@ -558,6 +569,15 @@ impl Harness for H {
     }
 
     fn enabled(&self, s: &Sys) -> Vec<Op> {
+        if s.strings.is_some() {
+            let mut v = Vec::new();
+            for a in strings::APIS {
+                for k in strings::KINDS {
+                    v.push(Op::Str(a, k));
+                }
+            }
+            return v;
+        }
         let Some((r, _)) = &s.worlds else {
             return errcheck::ASPECTS.iter().map(|a| Op::CheckAllVariants(*a)).collect();
         };
@@ -648,13 +668,33 @@ impl Harness for H {
             s.digest = seqx::hash_of(&(s.digest, name, format!("{aspect:?}"), o.variants, o.values, o.codes));
             return Ok(());
         }
+        if let Op::Str(api, kind) = op {
+            let ((r, rv), (c, cv)) = s.strings.as_mut().unwrap().apply(*api, *kind);
+            let c_fn = match api {
+                strings::StrApi::ConfigPrefix => "iox2_config_global_set_prefix",
+                strings::StrApi::ConfigRootPath => "iox2_config_global_set_root_path",
+                strings::StrApi::ServiceName => "iox2_service_name_new",
+                strings::StrApi::NodeName => "iox2_node_name_new",
+            };
+            seqx::ensure!(
+                agree(&r, &c),
+                if r.is_err() || c.is_err() { "diff-error-code" } else { "diff-result" },
+                format!("strings.{api:?}: {c_fn} | rust {} vs {}", r.class(), c.class()),
+                "{c_fn} with a {kind:?} string: the Rust constructor gives {} but the C function returned {}",
+                r.show(),
+                c.show()
+            );
+            seqx::ensure!(rv == cv, "diff-state", format!("strings.{api:?}: {c_fn} value afterwards"), "after {c_fn} with a {kind:?} string the value is {:?} through Rust but {:?} through C", rv, cv);
+            s.digest = seqx::hash_of(&(s.digest, format!("{op:?}"), r.class()));
+            return Ok(());
+        }
         s.step = s.step.wrapping_add(1);
         let fill = s.step;
         let (pattern, mix, slice) = match &s.cfg {
             Cfg::PubSub { mix, slice, .. } => ("pub-sub", *mix, *slice),
             Cfg::Event { mix, .. } => ("event", *mix, false),
             Cfg::ReqRes { mix, slice, .. } => ("req-res", *mix, *slice),
-            Cfg::ErrorEnum { .. } => unreachable!(),
+            Cfg::ErrorEnum { .. } | Cfg::Strings => unreachable!(),
         };
         let (r, t) = s.worlds.as_mut().unwrap();
         let seen_r = r.apply(op, fill, true);
@@ -722,14 +762,13 @@ impl Harness for H {
             Cfg::PubSub { svc, mix, .. } => (iceoryx2::prelude::MessagingPattern::PublishSubscribe, iceoryx2_ffi_c::iox2_messaging_pattern_e::PUBLISH_SUBSCRIBE, *svc, *mix),
             Cfg::Event { svc, mix, .. } => (iceoryx2::prelude::MessagingPattern::Event, iceoryx2_ffi_c::iox2_messaging_pattern_e::EVENT, *svc, *mix),
             Cfg::ReqRes { svc, mix, .. } => (iceoryx2::prelude::MessagingPattern::RequestResponse, iceoryx2_ffi_c::iox2_messaging_pattern_e::REQUEST_RESPONSE, *svc, *mix),
-            Cfg::ErrorEnum { .. } => unreachable!(),
+            Cfg::ErrorEnum { .. } | Cfg::Strings => unreachable!(),
         };
         // while alive: both APIs must see both services
         let alive_r = rside::service_exists(svc, &s.prefixes.1, &s.names.1, pat_r);
         let alive_c = cside::service_exists(svc, &s.prefixes.1, &s.names.1, pat_c);
         r.close();
         t.close();
-        DIRTY.store(false, Ordering::Relaxed);
         seqx::ensure!(alive_r == Ok(true), "exists-while-alive", "Service::does_exist", "test world service not visible through the Rust API while its handles are alive: {:?}", alive_r);
         seqx::ensure!(alive_c == Ok(true), "exists-while-alive", "iox2_service_does_exist", "test world service not visible through the C API while its handles are alive: {:?}", alive_c);
         let ref_gone = rside::service_exists(svc, &s.prefixes.0, &s.names.0, pat_r);
@@ -756,6 +795,11 @@ impl Harness for H {
                     left_t
                 );
             }
+        }
+        // only an execution that ended without any finding (and whose Rust/Rust world left nothing
+        // either) leaves the process clean for sure
+        if ref_gone == Ok(false) && (svc != SvcType::Ipc || leftovers(&s.prefixes.0).is_empty()) {
+            DIRTY.store(false, Ordering::Relaxed);
         }
         Ok(())
     }
@@ -804,17 +848,20 @@ fn configs(tier: Tier) -> Vec<(Cfg, Plan)> {
     for n in errmap::ENUM_NAMES {
         v.push((Cfg::ErrorEnum { name: n.to_string() }, plan(1, 1)));
     }
+    // ---- names and paths: all pairs of calls
+    v.push((Cfg::Strings, plan(2, 1)));
 
     // IPC executions cost 20-50 ms (files, shared memory, four nodes), LOCAL ones 1-3 ms: the deep
     // exploration runs on LOCAL services, IPC services get every configuration class one level
     // shallower. Both arms of every `match service_type` of the binding are exercised.
-    let (d_ipc, d_loc, d_loc_deep) = if quick { (3usize, 4usize, 5usize) } else { (4, 5, 6) };
-    let (s_ipc, s_loc, s_deep) = if quick { (8u32, 4u32, 8u32) } else { (8, 4, 16) };
-    // level 0: one step shallower, 1: normal, 2: one step deeper (LOCAL only)
+    let (d_ipc, d_loc, d_loc_deep) = if quick { (3usize, 4usize, 5usize) } else { (3, 5, 6) };
+    let (s_ipc, s_loc, s_deep) = if quick { (8u32, 4u32, 8u32) } else { (8, 8, 16) };
+    // level 0: one step shallower (LOCAL), 1: normal, 2: one step deeper
     let dsp = |svc: SvcType, level: u8| -> (usize, u32) {
         match (svc, level) {
+            (SvcType::Ipc, 2) => (d_ipc + 1, 16),
             (SvcType::Ipc, _) => (d_ipc, s_ipc),
-            (SvcType::Local, 0) => (d_loc - 1, 1),
+            (SvcType::Local, 0) => (d_loc - 1, if quick { 1 } else { 2 }),
             (SvcType::Local, 1) => (d_loc, s_loc),
             (SvcType::Local, _) => (d_loc_deep, s_deep),
         }
@@ -844,23 +891,24 @@ fn configs(tier: Tier) -> Vec<(Cfg, Plan)> {
             for slice in [false, true] {
                 let mix = [Mix::CC, Mix::CR, Mix::RC][(i + slice as usize) % 3];
                 let svc = if (i + slice as usize) % 3 == 0 { SvcType::Ipc } else { SvcType::Local };
-                ps(mix, svc, *sa, slice, 1 + i % 2, 1 + (i / 2) % 2, 1 + (i + 1) % 2, i % 3 != 0, if slice { 2 } else { 0 }, 1);
+                ps(mix, svc, *sa, slice, 1 + i % 2, 1 + (i / 2) % 2, 1 + (i + 1) % 2, i % 3 != 0, if slice { 2 } else { 0 }, if svc == SvcType::Ipc { 1 } else { 0 });
             }
         }
         for (i, sa) in odd.iter().enumerate() {
             for slice in [false, true] {
                 let mix = [Mix::CC, Mix::RC, Mix::CR][(i + slice as usize) % 3];
                 let svc = if (i + slice as usize) % 3 == 1 { SvcType::Ipc } else { SvcType::Local };
-                ps(mix, svc, *sa, slice, 1 + (i + 1) % 2, 1 + i % 2, 1 + i % 2, i % 2 == 0, if slice { 0 } else { 2 }, 1);
+                ps(mix, svc, *sa, slice, 1 + (i + 1) % 2, 1 + i % 2, 1 + i % 2, i % 2 == 0, if slice { 0 } else { 2 }, if svc == SvcType::Ipc { 1 } else { 0 });
             }
         }
-        // every mix with the tightest limits: IPC, and one level deeper on LOCAL
+        // every mix with the tightest limits: IPC, and deeper on LOCAL
         for mix in [Mix::CC, Mix::CR, Mix::RC] {
             ps(mix, SvcType::Ipc, (8, 8), false, 1, 1, 1, true, 2, 1);
-            ps(mix, SvcType::Ipc, (12, 4), true, 2, 1, 2, false, 0, 1);
-            ps(mix, SvcType::Local, (8, 8), false, 1, 1, 1, true, 2, 2);
-            ps(mix, SvcType::Local, (12, 8), true, 2, 1, 1, false, 0, 2);
+            ps(mix, SvcType::Local, (8, 8), false, 1, 1, 1, true, 2, 1);
+            ps(mix, SvcType::Local, (12, 8), true, 2, 1, 1, false, 0, 1);
         }
+        ps(Mix::CC, SvcType::Local, (12, 4), false, 1, 1, 1, true, 2, 2);
+        ps(Mix::CC, SvcType::Ipc, (12, 4), true, 2, 1, 2, false, 0, 2);
     }
 
     // ---- (a) event
@@ -878,10 +926,12 @@ fn configs(tier: Tier) -> Vec<(Cfg, Plan)> {
         for mix in [Mix::CC, Mix::CR, Mix::RC] {
             for svc in [SvcType::Ipc, SvcType::Local] {
                 for le in [false, true] {
-                    ev(mix, svc, if le { 4 } else { 7 }, le, if svc == SvcType::Local && le { 2 } else { 1 });
+                    ev(mix, svc, if le { 4 } else { 7 }, le, 1);
                 }
             }
         }
+        ev(Mix::CC, SvcType::Ipc, 4, true, 2);
+        ev(Mix::CC, SvcType::Local, 4, true, 2);
     }
 
     // ---- (a) request-response
@@ -905,11 +955,16 @@ fn configs(tier: Tier) -> Vec<(Cfg, Plan)> {
             for stage in 0..=3u8 {
                 for slice in [false, true] {
                     let svc = if i % 3 == 0 { SvcType::Ipc } else { SvcType::Local };
-                    rr(mix, svc, types[i % 4], slice, 1 + i % 2, 1 + (i / 2) % 2, i % 4 == 1, stage, 1);
+                    rr(mix, svc, types[i % 4], slice, 1 + i % 2, 1 + (i / 2) % 2, i % 4 == 1, stage, if svc == SvcType::Ipc { 1 } else { 0 });
                     i += 1;
                 }
             }
         }
+        rr(Mix::CC, SvcType::Local, (8, 8), false, 1, 1, true, 0, 1);
+        rr(Mix::CC, SvcType::Local, (12, 4), true, 2, 1, false, 1, 1);
+        rr(Mix::CC, SvcType::Local, (16, 16), false, 2, 2, false, 2, 1);
+        rr(Mix::CC, SvcType::Local, (1, 1), true, 1, 2, true, 3, 1);
+        rr(Mix::CC, SvcType::Ipc, (8, 8), false, 1, 1, false, 0, 2);
     }
     v
 }
